@@ -115,7 +115,7 @@ pub(crate) fn gen_hmac_input(rng: &mut Rng) -> (HmacGetSecretInput, Vec<u8>) {
     }
     (
         HmacGetSecretInput {
-            key_agreement: gen_cose_value(rng),
+            key_agreement: if rng.chance(1, 8) { Cbor::Null } else { gen_cose_value(rng) },
             salt_enc: rng.bytes(*rng.clone().pick(&[32usize, 64, 48, 80])).into(),
             salt_auth: rng.bytes(*rng.clone().pick(&[16usize, 32])).into(),
             pin_uv_auth_protocol: p,
@@ -216,7 +216,7 @@ pub(crate) fn gen_mc_resp(rng: &mut Rng) -> (make_credential::Response, Vec<u8>)
         make_credential::Response {
             fmt: rng.pick(&["none", "None", "packed"]).to_string(),
             auth_data: gen_authdata(rng, true),
-            att_stmt: if rng.bool() { Cbor::Map(vec![]) } else { Cbor::Map(vec![(Cbor::Text("alg".into()), Cbor::Integer((-7).into())), (Cbor::Text("sig".into()), Cbor::Bytes(rng.bytes(70)))]) },
+            att_stmt: if rng.chance(1, 8) { Cbor::Null } else if rng.bool() { Cbor::Map(vec![]) } else { Cbor::Map(vec![(Cbor::Text("alg".into()), Cbor::Integer((-7).into())), (Cbor::Text("sig".into()), Cbor::Bytes(rng.bytes(70)))]) },
             ep_att: ep,
             large_blob_key: lb,
             unsigned_extension_outputs: un,
@@ -420,7 +420,7 @@ fn check_message<T: Serialize + DeserializeOwned>(cx: &mut Ctx, ty: &'static str
             case.clone(),
         );
     }
-    if entries.iter().any(|(_, v)| v.is_null()) {
+    if entries.iter().any(|(k, v)| v.is_null() && table.iter().any(|t| Some(i128::from(t.0)) == oracle::cbor_int(k) && !t.2)) {
         rep.violate(&format!("{ty}: absent optional member serialised as null"), String::new(), case.clone());
     }
     // (b) round trip
@@ -496,6 +496,25 @@ fn check_message<T: Serialize + DeserializeOwned>(cx: &mut Ctx, ty: &'static str
             Ok(true) => rep.violate(&format!("{ty}: duplicated member accepted"), format!("key {}", got_keys[i]), c),
             Ok(false) => rep.count("duplicates_rejected"),
             Err((sig, d)) => rep.violate(&format!("{ty}: duplicate {sig}"), d, c),
+        }
+        // a duplicate whose first (or second) occurrence carries null is still a duplicate
+        for null_first in [true, false] {
+            rep.eval();
+            let mut e = entries.clone();
+            let nul = (e[i].0.clone(), Cbor::Null);
+            if null_first {
+                e.insert(i, nul);
+            } else {
+                e.insert(i + 1, nul);
+            }
+            let b = oracle::cbor_ser(&Cbor::Map(e));
+            let mut c = case.clone();
+            c["duplicated_key_with_null"] = json!({"key": got_keys[i], "null_first": null_first});
+            match catch(|| de::<T>(&b).is_ok()) {
+                Ok(true) => rep.violate(&format!("{ty}: duplicated member accepted when one occurrence is null"), format!("key {} (null {})", got_keys[i], if null_first { "first" } else { "second" }), c),
+                Ok(false) => rep.count("duplicates_rejected"),
+                Err((sig, d)) => rep.violate(&format!("{ty}: duplicate {sig}"), d, c),
+            }
         }
         let key = got_keys[i];
         let required = table.iter().any(|t| i128::from(t.0) == key && t.2);
